@@ -266,7 +266,8 @@ func contains09(ss []string, s string) bool {
 func H09c() {
 	// three typedefs whose bases are symbolic names over {a,b,c,string}: cycles, chains, unknowns
 	base := func() string {
-		return []string{"a", "b", "c", "string", "nosuch", "m:a", "union { type string; type b; }"}[symChoice(7)]
+		// x:tb is a typedef of the mutually importing module x whose base is m's typedef b
+		return []string{"a", "b", "c", "string", "nosuch", "m:a", "union { type string; type b; }", "x:tb"}[symChoice(8)]
 	}
 	ba, bb, bc := base(), base(), base()
 	term := func(b string) string {
@@ -275,9 +276,10 @@ func H09c() {
 		}
 		return b + "; "
 	}
-	m := `module m { namespace "urn:m"; prefix m; typedef a { type ` + term(ba) + `} typedef b { type ` + term(bb) + `} typedef c { type ` + term(bc) + `} leaf l { type a; } }`
+	m := `module m { namespace "urn:m"; prefix m; import x { prefix x; } typedef a { type ` + term(ba) + `} typedef b { type ` + term(bb) + `} typedef c { type ` + term(bc) + `} leaf l { type a; } }`
+	x := `module x { namespace "urn:x"; prefix x; import m { prefix mm; } typedef tb { type mm:b; } }`
 	note(m)
-	ms, lerrs := hLoad(m)
+	ms, lerrs := hLoad(m, x)
 	check(len(lerrs) == 0, "the module parses")
 	errs := ms.Process()
 	// reference: follow the names from each typedef; unknown or revisiting = bad
@@ -296,7 +298,7 @@ func H09c() {
 			case "nosuch":
 				bad = true
 				return
-			case "union { type string; type b; }":
+			case "union { type string; type b; }", "x:tb":
 				walk("b")
 				return
 			}
